@@ -75,17 +75,16 @@ Theorem C17_winner_leads_by_margin :
   forall now mn l a b, 1 <= mn -> cnt now a l < 2 ^ 49 ->
   majority_of now mn l = Some a -> b <> a ->
   mn <= cnt now a l /\ 10 * cnt now b l + 5 <= 7 * cnt now a l.
-Proof.
-  intros now mn l a b Hmn Hm W Hb. apply (winner_spec now mn l a Hmn) in W. destruct W as [W1 W2].
-  split; [exact W1|]. pose proof (W2 b Hb) as Lt. destruct (threshold_bounds _ Hm) as [B _].
-  apply N.lt_pred_le in Lt.
-  (* 10 (cnt b + 1) <= 10 threshold <= 7 m + 5 *)
-  assert (10 * (cnt now b l + 1) <= 10 * threshold (cnt now a l)).
-  { apply N.mul_le_mono_l. rewrite N.add_1_r. apply N.le_succ_l. apply W2. exact Hb. }
-  rewrite N.mul_add_distr_l in H. change (10 * 1) with (5 + 5) in H.
-  rewrite N.add_assoc in H. apply (N.add_le_mono_r _ _ 5). eapply N.le_trans; [exact H | exact B].
-Qed.
+Proof. exact winner_leads_by_margin. Qed.
 Print Assumptions C17_winner_leads_by_margin.
+
+(* conversely, the minimum and a lead of more than 30 % (plus one half) suffice *)
+Theorem C17_clear_lead_wins :
+  forall now mn l a, 1 <= mn -> cnt now a l < 2 ^ 49 ->
+  mn <= cnt now a l -> (forall b, b <> a -> 10 * cnt now b l + 5 < 7 * cnt now a l) ->
+  majority_of now mn l = Some a.
+Proof. exact clear_lead_wins. Qed.
+Print Assumptions C17_clear_lead_wins.
 
 (* ---------------------------------------------------------------- one vote per node *)
 
